@@ -290,83 +290,134 @@ Proof.
 Qed.
 
 (* ------------------------------------------------------------------------------------------------
-   Local lock across PROCESSES, under every process topology (Model/ProcLock.v; imported here, after the
-   statements above, so that its names shadow nothing they use).
+   Local lock across PROCESSES, under every process topology (Model/ProcLock.v + Model/ProcFork.v; imported here,
+   after the statements above, so that their names shadow nothing they use).
    Writers are FileLock handles placed in OS processes by an ARBITRARY `proc : hid -> pid`: separate processes,
-   several handles in one process, and processes created by fork() -- `LFork h h'` makes h' (in another process) a
-   copy of the handle OBJECT h and lets it INHERIT h's open descriptors, i.e. share h's open file descriptions;
-   the kernel's lock belongs to the description (gen_lock_disc, regenerated from the primitive the source calls:
-   Gen/GenFileLock.v), goes away with an unlock through it or with the LAST descriptor of it, and a process death
-   closes the descriptors of that process only.  Every handle runs the regenerated program of
+   several handles in one process, and processes created by fork().  A fork is the kernel's: `PFork p p' tw` copies
+   EVERY handle object of p and EVERY open descriptor of p (tw = which handle of p' is the copy of which handle of p;
+   the event is enabled only when tw covers every reference to an open description held in p -- a schedule cannot
+   fork "just the idle handle" of a process whose other handle holds), each inherited descriptor sharing the parent's
+   open file description; the kernel's lock belongs to the description (gen_lock_disc, regenerated from the primitive
+   the source calls: Gen/GenFileLock.v), goes away with an unlock through it or with the LAST descriptor of it, and a
+   process death closes the descriptors of that process only.  Every handle runs the regenerated program of
    FileLock._try_acquire_once / release one kernel primitive per event, and EVERY event list is a schedule.
-   Hypothesis on the environment, spelled out in every statement: `forks_quiescent` -- a fork copies handles that
-   are idle at that moment: before their first use, after a completed acquire / release cycle, after a refused
-   attempt (fork while a handle HOLDS duplicates the holder -- that is fork(2): C01_fork_while_holding_not_exclusive).
+
+   HYPOTHESIS on the environment, in every `_quiescent_partial` statement: `pforks_quiescent` -- at a fork NO handle
+   of the forking process is inside an acquisition (attempt in progress, holding, inside release()).  The property
+   text says "across threads and processes under any schedule", and a fork from inside a commit (a worker pool started
+   by another thread) IS a schedule: the statements without the hypothesis are the `_full` Definitions, and they are
+   FALSE (`_full_refuted`) -- that is fork(2) duplicating a holder, not a defect of FileLock; the process-family runs
+   of the harness judge the copies of a holder made by a fork as ONE acquisition.
    ------------------------------------------------------------------------------------------------ *)
-Require Import DS.Model.ProcLockBase DS.Gen.GenFileLock DS.Model.ProcLock DS.Model.ProcLockKeep.
-Require DS.Proofs.ProcLockProofs DS.Proofs.ProcLockC19Proofs.
+Require Import DS.Model.ProcLockBase DS.Gen.GenFileLock DS.Model.ProcLock DS.Model.ProcLockKeep DS.Model.ProcFork.
+Require DS.Proofs.ProcLockProofs DS.Proofs.ProcLockC19Proofs DS.Proofs.ProcForkProofs.
 Close Scope Z_scope.
 
-(* At most one handle holds, among all handles of all processes, forked workers included; and the handle that reports
-   is_held() (its flag) is exactly the one whose description the kernel names as the lock's owner: no handle ever
-   reports a lock it does not hold. *)
-Theorem C19_proc_mutex_any_topology : forall (proc : hid -> pid) evs,
-  forks_quiescent gen_lock_disc proc linit evs ->
-  let s := lrun gen_lock_disc proc linit evs in
-  (forall h1 h2, lholds s h1 -> lholds s h2 -> h1 = h2) /\ (forall h, lholds s h <-> lock_view s = Some h).
-Proof. exact ProcLockC19Proofs.gen_lock_mutex_and_flag. Qed.
-Print Assumptions C19_proc_mutex_any_topology.
+(* At most one handle holds, among all handles of all processes, forked workers included; the handle that holds
+   (flag set, not inside release()) is exactly the one whose description the kernel names as the lock's owner.
+   What is_held() RETURNS is the flag `_locked` (lflag), and release() clears it only after the unlock and the close:
+   the flag is set exactly for the kernel's owner and for a handle inside its own release() (in_release: unlocked,
+   descriptor not yet closed), and for the latter the kernel lock is ALREADY GONE -- "never reports a lock that is
+   not held" holds outside release() only (the owner thread is inside release(), not at a commit fence; see
+   C19_proc_flag_is_owner_full_refuted for two flags at once). *)
+Theorem C19_proc_mutex_quiescent_partial : forall (proc : hid -> pid) evs,
+  pforks_quiescent gen_lock_disc proc linit evs ->
+  let s := prun gen_lock_disc proc linit evs in
+  (forall h1 h2, lholds s h1 -> lholds s h2 -> h1 = h2)
+  /\ (forall h, lholds s h <-> lock_view s = Some h)
+  /\ (forall h, lflag s h <-> (lock_view s = Some h \/ in_release s h))
+  /\ (forall h, in_release s h -> lock_view s <> Some h /\ ~ lholds s h).
+Proof. exact ProcForkProofs.pgen_mutex_and_flag. Qed.
+Print Assumptions C19_proc_mutex_quiescent_partial.
+
+(* The full statement -- any schedule, forks from inside an acquisition included -- and its refutation: a process
+   forks while its handle holds; parent and child both hold. *)
+Definition C19_proc_mutex_full : Prop := ProcForkProofs.proc_mutex_full.
+Theorem C19_proc_mutex_full_refuted : ~ C19_proc_mutex_full.
+Proof. exact ProcForkProofs.proc_mutex_full_refuted. Qed.
+Print Assumptions C19_proc_mutex_full_refuted.
+
+(* "the handle whose flag is set is the kernel's owner, and at most one flag is set" without the exception for
+   release(), and its refutation (quiescent forks -- none at all): handle 0 is inside release() after the unlock,
+   handle 1 is granted: both flags are set. *)
+Definition C19_proc_flag_is_owner_full : Prop := ProcForkProofs.proc_flag_is_owner_full.
+Theorem C19_proc_flag_is_owner_full_refuted : ~ C19_proc_flag_is_owner_full.
+Proof. exact ProcForkProofs.proc_flag_is_owner_full_refuted. Qed.
+Print Assumptions C19_proc_flag_is_owner_full_refuted.
 
 (* A holder's death releases the lock: after the death of the holder's process nobody holds, and EVERY idle handle of
    another process -- a separate process, a forked sibling, the forked parent -- is granted on its next attempt and
    is then the only holder. *)
-Theorem C19_proc_death_frees : forall (proc : hid -> pid) evs h,
-  forks_quiescent gen_lock_disc proc linit evs ->
-  let s := lrun gen_lock_disc proc linit evs in
+Theorem C19_proc_death_frees_quiescent_partial : forall (proc : hid -> pid) evs h,
+  pforks_quiescent gen_lock_disc proc linit evs ->
+  let s := prun gen_lock_disc proc linit evs in
   lholds s h ->
-  exists s', lstep gen_lock_disc proc s (LKill (proc h)) = Some s' /\ lock_view s' = None /\ (forall k, ~ lholds s' k)
+  exists s', pstep gen_lock_disc proc s (PEv (LKill (proc h))) = Some s' /\ lock_view s' = None /\ (forall k, ~ lholds s' k)
     /\ (forall w, l_h s w = HIdle -> proc w <> proc h ->
-          exists s'', lrun_strict gen_lock_disc proc s' (map (LStep w) attempt_granted_events) 0 = inl s''
+          exists s'', prun_strict gen_lock_disc proc s' (map PEv (map (LStep w) attempt_granted_events)) 0 = inl s''
                       /\ lholds s'' w /\ lock_view s'' = Some w /\ (forall k, lholds s'' k -> k = w)).
-Proof. exact ProcLockC19Proofs.gen_lock_death_frees. Qed.
-Print Assumptions C19_proc_death_frees.
+Proof. exact ProcForkProofs.pgen_death_frees. Qed.
+Print Assumptions C19_proc_death_frees_quiescent_partial.
+
+(* The full statement and its refutation, with the topology the single-handle fork of Model/ProcLock.v could not
+   express: process 0 has handles 0 (idle) and 1 (holding) and forks.  (2nd conjunct) the fork that leaves handle 1's
+   descriptor out is not an event; (3rd) after the whole-table fork and the death of process 0 the kernel still has
+   an owner -- the child's inherited descriptor keeps the owning description open --, the dead holder's copy 3 is the
+   holder, and the outsider 4 is REFUSED; (4th) when the child's process is gone as well, the outsider is granted. *)
+Definition C19_proc_death_frees_full : Prop := ProcForkProofs.proc_death_frees_full.
+Theorem C19_proc_death_frees_full_refuted :
+  ~ C19_proc_death_frees_full
+  /\ pstep gen_lock_disc ProcForkProofs.two_in_one
+       (prun gen_lock_disc ProcForkProofs.two_in_one linit [PEv (LStep 1 KOpen); PEv (LStep 1 (KTry true))]%nat)
+       (PFork 0 1 [(0, 2)])%nat = None
+  /\ (exists s, prun_strict gen_lock_disc ProcForkProofs.two_in_one linit
+                  (ProcForkProofs.fork_while_other_holds ++ [PEv (LKill 0); PEv (LStep 4 KOpen); PEv (LStep 4 (KTry false))]%nat) 0 = inl s
+                /\ l_owner s <> None /\ l_h s 1%nat = HDead /\ l_h s 3%nat = HHeld 0 /\ l_h s 4%nat = HRefused 1)
+  /\ (exists s, prun_strict gen_lock_disc ProcForkProofs.two_in_one linit
+                  (ProcForkProofs.fork_while_other_holds ++ [PEv (LKill 0); PEv (LKill 1); PEv (LStep 4 KOpen); PEv (LStep 4 (KTry true))]%nat) 0 = inl s
+                /\ lholds s 4%nat).
+Proof. exact ProcForkProofs.proc_death_frees_full_refuted. Qed.
+Print Assumptions C19_proc_death_frees_full_refuted.
 
 (* acquire() succeeds only through a granted attempt, and an attempt is granted only when NO handle of any process
    holds; afterwards the acquirer is the only holder. *)
-Theorem C19_proc_granted_only_when_free : forall (proc : hid -> pid) evs h s',
-  forks_quiescent gen_lock_disc proc linit evs ->
-  let s := lrun gen_lock_disc proc linit evs in
-  lstep gen_lock_disc proc s (LStep h (KTry true)) = Some s' ->
+Theorem C19_proc_granted_only_when_free_quiescent_partial : forall (proc : hid -> pid) evs h s',
+  pforks_quiescent gen_lock_disc proc linit evs ->
+  let s := prun gen_lock_disc proc linit evs in
+  pstep gen_lock_disc proc s (PEv (LStep h (KTry true))) = Some s' ->
   (forall k, ~ lholds s k) /\ lholds s' h /\ (forall k, lholds s' k -> k = h).
-Proof. exact ProcLockC19Proofs.gen_lock_granted_only_when_free. Qed.
-Print Assumptions C19_proc_granted_only_when_free.
+Proof. exact ProcForkProofs.pgen_granted_only_when_free. Qed.
+Print Assumptions C19_proc_granted_only_when_free_quiescent_partial.
 
 (* A blocked acquirer never reports success while another holder is live: once k holds, through ANY further events
-   (any interleaving of any handles in any processes: polling rounds of the acquirer, other contenders, forks of idle
-   handles, deaths of other processes) that contain neither k's own unlock nor the death of k's process, k still
-   holds, the acquirer h does not, the kernel's `granted` answer to h is not enabled and its `refused` answer is --
-   so h's polling loop can only end in the timeout of C19_flock_timeout. *)
-Theorem C19_proc_blocked_never_succeeds : forall (proc : hid -> pid) evs evs2 k h,
-  forks_quiescent gen_lock_disc proc linit (evs ++ evs2) ->
-  lholds (lrun gen_lock_disc proc linit evs) k ->
-  Forall (fun e => ~ ProcLockC19Proofs.ends_holding proc k e) evs2 -> h <> k ->
-  let s := lrun gen_lock_disc proc linit (evs ++ evs2) in
-  lholds s k /\ ~ lholds s h /\ lstep gen_lock_disc proc s (LStep h (KTry true)) = None
+   (any interleaving of any handles in any processes: polling rounds of the acquirer, other contenders, quiescent
+   forks, deaths of other processes) that contain neither k's own unlock nor the death of k's process, k still
+   holds, the acquirer h does not, the kernel's `granted` answer to h is not enabled and its `refused` answer is.
+   SAFETY only: this machine has no clock; that the polling loop then ENDS in a timeout error within the configured
+   timeout is C19_flock_timeout, a theorem of the single-process model Model/FLock.v (same handle program, with the
+   deadline), not linked formally to this one. *)
+Theorem C19_proc_blocked_never_succeeds_quiescent_partial : forall (proc : hid -> pid) evs evs2 k h,
+  pforks_quiescent gen_lock_disc proc linit (evs ++ evs2) ->
+  lholds (prun gen_lock_disc proc linit evs) k ->
+  Forall (fun e => ~ ProcForkProofs.pends_holding proc k e) evs2 -> h <> k ->
+  let s := prun gen_lock_disc proc linit (evs ++ evs2) in
+  lholds s k /\ ~ lholds s h /\ pstep gen_lock_disc proc s (PEv (LStep h (KTry true))) = None
   /\ (forall d, l_h s h = HOpened d ->
-        exists s', lstep gen_lock_disc proc s (LStep h (KTry false)) = Some s' /\ lholds s' k /\ l_h s' h = HRefused d).
-Proof. exact ProcLockC19Proofs.gen_lock_blocked_never_succeeds. Qed.
-Print Assumptions C19_proc_blocked_never_succeeds.
+        exists s', pstep gen_lock_disc proc s (PEv (LStep h (KTry false))) = Some s' /\ lholds s' k /\ l_h s' h = HRefused d).
+Proof. exact ProcForkProofs.pgen_blocked_never_succeeds. Qed.
+Print Assumptions C19_proc_blocked_never_succeeds_quiescent_partial.
 
 (* WHY this holds of the code: the regenerated program opens the lock file per attempt and closes it on refusal and in
-   release(), so an idle handle has NO descriptor of the lock file and a fork of idle handles inherits nothing. *)
-Theorem C19_proc_idle_handle_has_no_descriptor : forall (proc : hid -> pid) evs,
-  forks_quiescent gen_lock_disc proc linit evs ->
-  let s := lrun gen_lock_disc proc linit evs in
+   release(), so an idle handle has NO descriptor of the lock file, a process whose handles are all idle has none at
+   all, and its fork -- the whole table -- inherits nothing. *)
+Theorem C19_proc_idle_process_has_no_descriptor_quiescent_partial : forall (proc : hid -> pid) evs,
+  pforks_quiescent gen_lock_disc proc linit evs ->
+  let s := prun gen_lock_disc proc linit evs in
   (forall h d, l_h s h = HIdle -> ~ In (d, h) (l_open s))
-  /\ (forall h h' s', l_h s h = HIdle -> lstep gen_lock_disc proc s (LFork h h') = Some s' ->
+  /\ (forall p p' tw s', (forall k, proc k = p -> l_h s k = HIdle) -> pstep gen_lock_disc proc s (PFork p p' tw) = Some s' ->
         l_open s' = l_open s /\ l_next s' = l_next s /\ l_owner s' = l_owner s /\ forall k, l_h s' k = l_h s k).
-Proof. exact ProcLockProofs.gen_lock_fork_inherits_nothing. Qed.
-Print Assumptions C19_proc_idle_handle_has_no_descriptor.
+Proof. exact ProcForkProofs.pgen_fork_inherits_nothing. Qed.
+Print Assumptions C19_proc_idle_process_has_no_descriptor_quiescent_partial.
 
 (* ... and what a handle that KEPT its descriptor across acquisitions would do (Model/ProcLockKeep.v: same kernel, the
    close left out).  Refutation witnesses, both strict (enabled) runs of the model under the regenerated discipline:
@@ -388,20 +439,31 @@ Theorem C19_proc_kept_descriptor_refuted :
 Proof. exact ProcLockC19Proofs.kept_descriptor_refuted. Qed.
 Print Assumptions C19_proc_kept_descriptor_refuted.
 
-(* Non-vacuity of the process-topology statements: parent 0 uses its lock once and forks workers 1 and 2 (quiescent
-   forks); worker 1 acquires; the parent's attempt is refused; worker 1's process dies; the parent is granted. *)
-Definition ex_procs : list levent :=
-  [LStep 0 KOpen; LStep 0 (KTry true); LStep 0 KUnlock; LStep 0 KClose; LFork 0 1; LFork 0 2;
-   LStep 1 KOpen; LStep 1 (KTry true); LStep 0 KOpen; LStep 0 (KTry false); LStep 0 KCloseRefused]%nat.
+(* Non-vacuity of the process-topology statements: process 0 has TWO handles (0 and 1), uses both once and forks
+   workers (processes 1 and 2, copies 2,3 and 4,5 of its handles: quiescent whole-process forks, enabled); the worker's
+   handle 2 acquires; the parent's attempt is refused; the worker's process dies; the parent is granted; and handle 0
+   inside release() has its flag set without being the owner. *)
+Definition ex_proc_of (h : hid) : pid := match h with 0 | 1 => 0 | 2 | 3 => 1 | _ => 2 end%nat.
+Definition ex_procs : list pevent :=
+  [PEv (LStep 0 KOpen); PEv (LStep 0 (KTry true)); PEv (LStep 0 KUnlock); PEv (LStep 0 KClose);
+   PEv (LStep 1 KOpen); PEv (LStep 1 (KTry true)); PEv (LStep 1 KUnlock); PEv (LStep 1 KClose);
+   PFork 0 1 [(0, 2); (1, 3)]; PFork 0 2 [(0, 4); (1, 5)];
+   PEv (LStep 2 KOpen); PEv (LStep 2 (KTry true)); PEv (LStep 0 KOpen); PEv (LStep 0 (KTry false)); PEv (LStep 0 KCloseRefused)]%nat.
 Example C19_proc_nonvacuous :
-  forks_quiescent gen_lock_disc c19_own_proc linit ex_procs
-  /\ lholds (lrun gen_lock_disc c19_own_proc linit ex_procs) 1%nat
-  /\ l_h (lrun gen_lock_disc c19_own_proc linit ex_procs) 0%nat = HIdle
-  /\ (exists s, lrun_strict gen_lock_disc c19_own_proc linit
-                  (ex_procs ++ [LKill 1; LStep 0 KOpen; LStep 0 (KTry true)]%nat) 0 = inl s /\ lholds s 0%nat)
-  /\ Forall (fun e => ~ ProcLockC19Proofs.ends_holding c19_own_proc 1%nat e) [LStep 0 KOpen; LStep 0 (KTry false); LStep 0 KCloseRefused]%nat.
+  pforks_quiescent gen_lock_disc ex_proc_of linit ex_procs
+  /\ prun_strict gen_lock_disc ex_proc_of linit ex_procs 0 = inl (prun gen_lock_disc ex_proc_of linit ex_procs)
+  /\ lholds (prun gen_lock_disc ex_proc_of linit ex_procs) 2%nat
+  /\ l_h (prun gen_lock_disc ex_proc_of linit ex_procs) 0%nat = HIdle
+  /\ (exists s, prun_strict gen_lock_disc ex_proc_of linit
+                  (ex_procs ++ [PEv (LKill 1); PEv (LStep 0 KOpen); PEv (LStep 0 (KTry true)); PEv (LStep 0 KUnlock)]%nat) 0 = inl s
+                /\ in_release s 0%nat /\ lflag s 0%nat /\ lock_view s = None)
+  /\ Forall (fun e => ~ ProcForkProofs.pends_holding ex_proc_of 2%nat e)
+       [PEv (LStep 0 KOpen); PEv (LStep 0 (KTry false)); PEv (LStep 0 KCloseRefused)]%nat.
 Proof.
-  split; [vm_compute; repeat split|]. split; [eexists; vm_compute; reflexivity|]. split; [vm_compute; reflexivity|].
-  split; [eexists; split; [vm_compute; reflexivity | eexists; vm_compute; reflexivity]|].
-  repeat constructor; intros [E|E]; discriminate.
+  split; [vm_compute; repeat split; intros k E; destruct k as [|[|[|[|k]]]]; try discriminate E; reflexivity|].
+  split; [vm_compute; reflexivity|]. split; [eexists; vm_compute; reflexivity|]. split; [vm_compute; reflexivity|].
+  split.
+  - eexists. split; [vm_compute; reflexivity|]. split; [eexists; vm_compute; reflexivity|].
+    split; [eexists; right; vm_compute; reflexivity | vm_compute; reflexivity].
+  - repeat constructor; intros [E|E]; discriminate.
 Qed.
